@@ -135,6 +135,18 @@ def run_oriented(case, rec):
     mesh = direct_model.get_mesh(i, pars, dim="2d")
     lengths = [len(m[1]) for m in mesh[2:2 + i.parameters.npars]]
     nactive = sum(1 for n_ in lengths if n_ > 1)
+    # the jitter angles of a distribution are offsets from the view angle, centred on zero and symmetric for the symmetric
+    # distribution types, whatever range the view angle itself is declared over
+    names_ = [q_.name for q_ in i.parameters.call_parameters]
+    for a in jit:
+        col = mesh[names_.index(a)]
+        pts_ = np.asarray(col[1], float)
+        n_req = int(pars[a + "_pd_n"])
+        if n_req >= 2 and float(np.max(np.abs(pts_))) < 300 if len(pts_) else True:
+            sym = len(pts_) == n_req and bool(np.all(np.abs(pts_ + pts_[::-1]) <= 1e-9*max(1.0, float(np.max(np.abs(pts_))))))
+            rec.check("jitter_mesh_symmetric_about_zero", sym,
+                      {"model": name, "angle": a, "view_angle": pars[a], "requested_points": n_req, "distribution": pars[a + "_pd_type"],
+                       "width": pars[a + "_pd"], "jitter_points": pts_})
     try:
         I = np.asarray(direct_model.call_kernel(kernel, dict(pars)), float)
     except ValueError as exc:
